@@ -63,6 +63,7 @@ type c31Msg struct {
 	Kind    string // block | ticket | notarization | notarized_block
 	Tickets []c31Tk
 	JSON    bool
+	VTs     []*block.VerificationTicket // set when the tickets were materialized at generation time (ticket bursts)
 }
 
 func c31Materialize(e *e3Engine, tks []c31Tk, hash, otherHash string) []*block.VerificationTicket {
@@ -340,6 +341,15 @@ func TestC31_Notarization(t *testing.T) {
 			m := c31Msg{Kind: kinds[rapid.IntRange(0, len(kinds)-1).Draw(t, "msgKind")], JSON: rapid.IntRange(0, 3).Draw(t, "json") == 0}
 			switch m.Kind {
 			case "ticket":
+				if rapid.IntRange(0, 2).Draw(t, "burst") == 0 {
+					// a burst: every entry of a generated list arrives as its own ticket message
+					l := c31GenList(t, n, thr, false)
+					vts := c31Materialize(e, l, B.Hash, otherHash)
+					for j := range l {
+						msgs = append(msgs, c31Msg{Kind: "ticket", Tickets: []c31Tk{l[j]}, JSON: m.JSON, VTs: []*block.VerificationTicket{vts[j]}})
+					}
+					continue
+				}
 				if rapid.IntRange(0, 2).Draw(t, "validTicket") > 0 {
 					m.Tickets = []c31Tk{{c31Valid, rapid.IntRange(0, n-1).Draw(t, "who")}}
 				} else {
@@ -368,20 +378,49 @@ func TestC31_Notarization(t *testing.T) {
 			return sb.String()
 		}
 
-		for mi, m := range msgs {
-			vts := c31Materialize(e, m.Tickets, B.Hash, otherHash)
-			// what this message contributes
-			validHere := map[int]bool{}
-			bad := false
+		// account books what a queued message (i.e. one the receive handler let through) carries for B: the oracle's
+		// count of distinct miners with a valid ticket is taken from the message itself, so a queue entry that is
+		// handed over late (loaded machine) is booked exactly like a prompt one
+		account := func(qm *BlockMessage) (valid map[int]bool, total int, bad bool) {
+			var l []*block.VerificationTicket
+			switch {
+			case qm.Block != nil && qm.Block.Hash == B.Hash:
+				l = qm.Block.GetVerificationTickets()
+			case qm.BlockVerificationTicket != nil && qm.BlockVerificationTicket.BlockID == B.Hash:
+				l = []*block.VerificationTicket{&qm.BlockVerificationTicket.VerificationTicket}
+			case qm.Notarization != nil && qm.Notarization.BlockID == B.Hash:
+				l = qm.Notarization.VerificationTickets
+			}
+			valid = map[int]bool{}
 			seenID := map[string]bool{}
-			for _, vt := range vts {
+			for _, vt := range l {
 				idx, ok := c31ValidMiner(e, vt, B.Hash)
 				if ok && !seenID[vt.VerifierID] {
-					validHere[idx] = true
+					valid[idx] = true
 				} else {
 					bad = true
 				}
-				seenID[vt.VerifierID] = true
+				if vt != nil {
+					seenID[vt.VerifierID] = true
+				}
+			}
+			for i := range valid {
+				deliveredValid[i] = true
+			}
+			if qm.Type == MessageVerify && bad {
+				blockCarriedBad = true
+			}
+			return valid, len(l), bad
+		}
+		// queue entries left behind by an earlier case are void (their rounds are gone)
+		for qm := c31Drain(mc, 0); qm != nil; qm = c31Drain(mc, 0) {
+			st.Class("stale_queue_entry_discarded")
+		}
+
+		for mi, m := range msgs {
+			vts := m.VTs
+			if vts == nil {
+				vts = c31Materialize(e, m.Tickets, B.Hash, otherHash)
 			}
 			for _, k := range m.Tickets {
 				st.Class("ticket/" + k.Kind)
@@ -389,7 +428,9 @@ func TestC31_Notarization(t *testing.T) {
 			st.Class("message/" + m.Kind)
 			// a message pushed late by an earlier step (loaded machine) is handled before the next one arrives
 			for qm := c31Drain(mc, 0); qm != nil; qm = c31Drain(mc, 0) {
+				account(qm)
 				c31Dispatch(mc, qm)
+				trace = append(trace, "   (a queue entry of an earlier message was handed over late)")
 				st.Class("late_queue_entry_processed")
 			}
 			ctx := node.WithNode(node.WithSenderValidateFunc(context.Background(), func() error { return nil }), sender)
@@ -434,16 +475,11 @@ func TestC31_Notarization(t *testing.T) {
 					return
 				}
 				if qm := c31Drain(mc, 40*time.Millisecond); qm != nil {
+					validHere, total, _ := account(qm)
 					c31Dispatch(mc, qm)
 					trace = append(trace, fmt.Sprintf("#%d %s %v -> processed", mi, m.Kind, m.Tickets))
 					st.Class("processed/" + m.Kind)
-					for i := range validHere {
-						deliveredValid[i] = true
-					}
-					if m.Kind == "block" && bad {
-						blockCarriedBad = true
-					}
-					if len(vts) >= thr && len(validHere) < thr {
+					if total >= thr && len(validHere) < thr {
 						nontrivial = true
 						st.Class("nontrivial_message/" + m.Kind)
 					}
@@ -509,7 +545,11 @@ func TestC31_Notarization(t *testing.T) {
 			}
 		}
 		// give the asynchronous parts of the handlers (previous-block update goroutine) a moment and look again
-		time.Sleep(2 * time.Millisecond)
+		if qm := c31Drain(mc, 2*time.Millisecond); qm != nil {
+			account(qm)
+			c31Dispatch(mc, qm)
+			st.Class("late_queue_entry_processed")
+		}
 		if lb, _ := mc.GetBlock(context.Background(), B.Hash); lb != nil && lb.IsBlockNotarized() && len(deliveredValid) < thr {
 			key := "notarized-below-threshold/late"
 			if blockCarriedBad {
